@@ -10,7 +10,8 @@ from props.mutcommon import compare_mutate, py_mutate, check_wf
 RULE = ('random circuits (sharing, repeated operands, blocks, outputs that are inputs/repeated) x {rename of every '
         'gate to a fresh label (and to clashing/absent labels), replace_inputs for input subset pairs, remove_gate of '
         'every gate, replace_subcircuit on depth-bounded slices with shared fan-out using (i) an identical copy, '
-        '(ii) a renamed copy, (iii) a re-expressed equivalent (double negation / De Morgan), (iv) deliberately '
+        '(ii) a renamed copy, (iii) a re-expressed equivalent (double negation), (iv) an equivalent whose outputs read '
+        'further frontier gates structurally (so the replacement can close a cycle), (v) deliberately '
         'incomplete mappings}; non-trivial = circuit with >=3 gates; distinct by (circuit, call)')
 ASSUMPTIONS = ['starting circuits are well formed (WFU)']
 TRUSTED = ['search oracle: truth tables through the real evaluator (certified in C01), cofactor computed in the '
@@ -61,9 +62,31 @@ def make_slice(rng, j):
     return {'outs': outs, 'interior': order, 'frontier': frontier}
 
 
+def add_dead_loop_closer(rng, j):
+    """append dead logic dl_x = NOT(o1), dl_o2 = NOT(dl_x) above a random gate o1: the slice {o1, dl_o2} then has
+    the frontier gate dl_x depending on the slice output o1"""
+    cand = [g[0] for g in j['gates'] if g[1] != 'INPUT' and g[2] and g[0] not in g[2]]
+    if not cand:
+        return j
+    o1 = rng.choice(cand)
+    j = dict(j)
+    j['gates'] = j['gates'] + [['dl_x', 'NOT', [o1]], ['dl_o2', 'NOT', ['dl_x']]]
+    return realize(j)
+
+
+def dead_loop_slice(j):
+    ops = {g[0]: (g[1], list(g[2])) for g in j['gates']}
+    if 'dl_x' not in ops:
+        return None
+    o1 = ops['dl_x'][1][0]
+    frontier = [l for l in dict.fromkeys(ops[o1][1]) if l != o1] + ['dl_x']
+    return {'outs': [o1, 'dl_o2'], 'interior': [o1, 'dl_o2'], 'frontier': frontier}
+
+
 def sub_from_slice(j, sl, variant, rng):
     ops = {g[0]: (g[1], list(g[2])) for g in j['gates']}
     ren = (lambda l: l) if variant == 'identical' else (lambda l: 'r_' + l)
+    # 'entangled' is a renamed copy whose outputs also read an unrelated frontier gate
     gates = [[ren(l), 'INPUT', []] for l in sl['frontier']]
     for l in sl['interior']:
         t, o = ops[l]
@@ -76,6 +99,17 @@ def sub_from_slice(j, sl, variant, rng):
             gates.append([f'dn1_{k}', 'NOT', [o]])
             gates.append([f'dn2_{k}', 'NOT', [f'dn1_{k}']])
             new_outs.append(f'dn2_{k}')
+        outs = new_outs
+    if variant == 'entangled' and sl['frontier']:
+        # every output additionally reads a frontier gate it does not depend on functionally:
+        # o' = o OR (f AND NOT f) -- same function, one more structural dependency
+        new_outs = []
+        for k, o in enumerate(outs):
+            f = ren('dl_x' if 'dl_x' in sl['frontier'] and k == 0 else rng.choice(sl['frontier']))
+            gates.append([f'en1_{k}', 'NOT', [f]])
+            gates.append([f'en2_{k}', 'AND', [f, f'en1_{k}']])
+            gates.append([f'en3_{k}', 'OR', [o, f'en2_{k}']])
+            new_outs.append(f'en3_{k}')
         outs = new_outs
     sub = realize({'gates': gates, 'inputs': [ren(l) for l in sl['frontier']], 'outputs': outs})
     im = [[l, ren(l)] for l in sl['frontier']]
@@ -106,16 +140,24 @@ def gen_calls(ctx, rng, j):
         sl = make_slice(rng, j)
         if sl is None:
             break
-        variant = rng.choice(['identical', 'renamed', 'renamed', 'reexpressed', 'incomplete'])
+        variant = rng.choice(['identical', 'renamed', 'renamed', 'reexpressed', 'entangled', 'entangled', 'incomplete'])
         sub, im, om = sub_from_slice(j, sl, variant, rng)
         calls.append([['replace_subcircuit', sub, im, om]])
+    sl = dead_loop_slice(j)
+    if sl is not None:
+        for variant in ('renamed', 'entangled'):
+            sub, im, om = sub_from_slice(j, sl, variant, rng)
+            calls.append([['replace_subcircuit', sub, im, om]])
     return calls
 
 
 def gen_c19(ctx, rng):
     j, info = gen.gen_circuit(rng, max_inputs=4, max_gates=ctx.scale(10, 18), max_arity=3, blocks=(rng.random() < 0.3),
                               p_repeat_operand=0.25)
-    return realize(j), info
+    j = realize(j)
+    if rng.random() < 0.3:
+        j = add_dead_loop_closer(rng, j)
+    return j, info
 
 
 def correspondence(ctx):
